@@ -17,7 +17,13 @@ TRUSTED_BASE = [
     "generated normalisation against the implementation's normalize_index on the whole sweep",
     "Spec/PySlice.v as a description of CPython's slice.indices()/range(), cross-checked against the "
     "interpreter on the whole sweep",
-    "correspondence harness tools/props/c02.py, tools/vlib.py",
+    "tools/sitegen/indexing.py (picks scalar expressions out of loop bodies by structural address, fail-closed) "
+    "feeding the unmodified py2v; coq/Lib/PyIndex.v (hand-written meaning of four list expressions)",
+    "Spec/NpIndex.v as a description of NumPy basic + (adjacent) advanced indexing, cross-checked against "
+    "NumPy's own x.todense()[index] on every generated in-grammar case (verdict kind 9)",
+    "searchsorted modelled as plain bisection (Model/CooIndex.v bisect), validated through the kernel-level "
+    "correspondence of _get_mask_pairs / get_array_selection only",
+    "correspondence harness tools/props/c02.py, tools/props/c02_index.py, tools/vlib.py",
 ]
 ASSUMPTIONS = ["element values are opaque; dtype handling is not modelled"]
 
@@ -128,6 +134,18 @@ def campaign(build, tier, seed, report, budget=1):
     cov["exhaustive"] = True
     cov["samples"] = [dict(case=cases[i], impl=res[i]) for i in (0, len(cases) // 2, len(cases) - 1)]
     cov["branch_tags"] = {f"{k[0]}/{k[1]}": v for k, v in sorted(tags.items())}
+    # part 2: index tuples of the whole grammar on COO / GCXS / DOK, derived inputs, kernels (c02_index.py)
+    from props import c02_index
+    viol += c02_index.campaign_index(build, tier, seed, report, budget)
+    ic = report.get("index_coverage", {})
+    cov["slice_sweep_evaluations"] = cov["evaluations"]
+    cov["evaluations"] += ic.get("evaluations", 0)
+    cov["distinct_nontrivial"] += ic.get("distinct_nontrivial", 0)
+    cov["rule"] += " || " + ic.get("rule", "")
+    cov["branch_tags"].update(ic.get("branch_tags", {}))
+    cov["samples"] = cov["samples"][:2] + ic.get("samples", [])[:2]
+    cov["skipped_inputs"] = ic.get("skipped_inputs", {})
+    cov["index_classes"] = ic.get("classes", 0)
     return viol
 
 
